@@ -246,6 +246,13 @@ theorem markInactive_ia_iff (st : St) (active : List Nat) (k : Nat) :
 theorem markInactive_dq (st : St) (active : List Nat) : (markInactive st active).dq = st.dq := by
   rw [markInactive_eq]; exact (miFold active (members st.n) st).2.2.1
 
+/-- inactivity marking never touches the group size or the member's identity -/
+theorem markInactive_n (st : St) (active : List Nat) : (markInactive st active).n = st.n := by
+  rw [markInactive_eq]; exact (miFold active (members st.n) st).2.1
+
+theorem markInactive_id (st : St) (active : List Nat) : (markInactive st active).id = st.id := by
+  rw [markInactive_eq]; exact (miFold active (members st.n) st).1
+
 /-- two members with the same views `sameView` -/
 def sameView (a b : St) : Prop :=
   a.n = b.n ∧ (∀ k, k ∈ a.ia ↔ k ∈ b.ia) ∧ (∀ k, k ∈ a.dq ↔ k ∈ b.dq)
